@@ -241,4 +241,49 @@ theorem execInner_ne_bad {V : Type} (A : Arith V) : ∀ (ops : List (PsOp V)) (s
     · rename_i e; exact absurd e h.1
     · rename_i e; exact absurd e h.2
 
+
+-- ---------------------------------------------------------------------------------------------------
+-- key lengths
+
+theorem sliceTo_ok {n len : Nat} (h : n ≤ len) : sliceTo n len = .ok () := by simp [sliceTo, h]
+theorem rc4Key_ok {len : Nat} (h : 0 < len ∧ len ≤ 256) : rc4Key len = .ok () := by simp [rc4Key, h]
+theorem seqU_ok (b : Out Unit) : seqU (.ok ()) b = b := rfl
+
+theorem userKeySlices_ok (revision keySize : Nat) : userKeySlices true revision keySize = .ok () := by
+  unfold userKeySlices
+  rw [sliceTo_ok (show 16 ≤ max keySize 16 by omega)]
+  split
+  · simp only [if_true]; rw [sliceTo_ok (show min keySize 16 ≤ 16 by omega)]; rfl
+  · rfl
+
+theorem keySchedule_returns (revision keyBits : Nat) (userOk : Bool) :
+    keySchedule true revision keyBits userOk = .ok () ∨ keySchedule true revision keyBits userOk = .err := by
+  unfold keySchedule
+  simp only []
+  by_cases h0 : keyBits / 8 = 0
+  · right; rw [if_pos h0]
+  · rw [if_neg h0, userKeySlices_ok, seqU_ok, sliceTo_ok (show min (keyBits / 8) 16 ≤ max (keyBits / 8) 16 by omega), seqU_ok,
+      rc4Key_ok (show 0 < min (keyBits / 8) 16 ∧ min (keyBits / 8) 16 ≤ 256 by omega), seqU_ok]
+    cases userOk
+    · simp only [Bool.false_eq_true, if_false]
+      by_cases hb : keyBits / 8 > 16
+      · right; rw [if_pos hb]
+      · left
+        rw [if_neg hb]
+        simp only [sliceTo_ok (show keyBits / 8 ≤ 16 by omega), sliceTo_ok (show keyBits / 8 ≤ max (keyBits / 8) 16 by omega),
+          rc4Key_ok (show 0 < keyBits / 8 ∧ keyBits / 8 ≤ 256 by omega), userKeySlices_ok, seqU_ok]
+    · left; rfl
+
+theorem objectKeySlices_ok (aes : Bool) (keySize keyLen : Nat) (h : min keySize 16 ≤ keyLen) :
+    objectKeySlices aes keySize keyLen = .ok () := by
+  unfold objectKeySlices
+  simp only []
+  rw [sliceTo_ok h, seqU_ok]
+  cases aes
+  · simp only [Bool.false_eq_true, if_false]
+    rw [sliceTo_ok (show min keySize 16 + 5 ≤ 21 by omega), seqU_ok]
+    exact rc4Key_ok (by omega)
+  · simp only [if_true]
+    rw [sliceTo_ok (show min keySize 16 + 9 ≤ 41 by omega), seqU_ok]
+
 end Numeric
